@@ -177,9 +177,9 @@ func (o *Oracle) Lines(sels, topics []string) []string {
 	for _, s := range sels {
 		ls = append(ls, h.Line("or.valid", h.Hex(s), h.B(o.Valid(s))))
 		for _, t := range topics {
-			if o.Expands(s, t) {
-				ls = append(ls, h.Line("or.exp", h.Hex(s), h.Hex(t), "1"))
-			}
+			// both answers are announced: the driver no longer loads them, it checks its own
+			// (Model/Template) against them and answers or-mismatch when they differ
+			ls = append(ls, h.Line("or.exp", h.Hex(s), h.Hex(t), h.B(o.Expands(s, t))))
 		}
 	}
 
